@@ -445,6 +445,14 @@ def rule_h3b(col, prog, crate, R, gens):
         for l in R.new.locals:
             pass
         width = 32
+    # the field itself must be able to hold them: with fewer than 32 bits equal priorities are unavoidable long before
+    # the sizes the property quantifies over, and ties form chains (merge sends every tie to the same side)
+    pty = util.fields_of(util.need_adt(crate, "TreapNode"))[R.PRIO]["ty"].split("::")[-1]
+    pw = {"u8": 8, "i8": 8, "u16": 16, "i16": 16, "u32": 32, "i32": 32, "u64": 64, "i64": 64, "usize": 64, "isize": 64, "u128": 128, "i128": 128}.get(pty)
+    if pw is not None and pw < 32:
+        col.violation("H3", "TreapNode|priority-width", R.new.loc(), "the priority field is a %s: only 2^%d distinct priorities, so beyond ~2^%d nodes equal priorities dominate and monotone insertion orders degenerate into chains (the reference width is 32 bits)" % (pty, pw, pw))
+    elif pw is not None:
+        col.ok("H3", R.new.loc(), "TreapNode|priority-width", "priority field holds %d bits" % pw, nontrivial=False)
     memo = {}
 
     def fn_bits(b, depth=0):
